@@ -98,6 +98,24 @@ def _check(mido, type_, attrs, t, thorough):
                 f'after mutating a returned list, a fresh {m4!r}.bytes() = '
                 f'{m4.bytes()!r}')
     b = b_copy
+    # what from_bytes/from_hex return belongs to the caller too: change the
+    # decoded object, decode the same bytes again
+    try:
+        d1 = Message.from_bytes(b, time=t)
+        d1.time = 12345
+        if type_ == 'sysex':
+            d1.data = (0x55,)
+        elif mv.keys() - {'type', 'time'}:
+            k0 = sorted(mv.keys() - {'type', 'time'})[0]
+            setattr(d1, k0, 0 if mv[k0] else 1)
+        d2 = Message.from_bytes(b, time=t)
+        d3 = Message.from_hex(hx, time=t)
+    except Exception as e:
+        return (f'decode-aliased-raises/{type_}/{type(e).__name__}', repr(e))
+    if vars(d2) != mv or vars(d3) != mv or d2 is d1:
+        return (f'decode-aliased/{type_}',
+                f'after changing a message returned by from_bytes({exp}), '
+                f'decoding the same bytes again gave {d2!r} / {d3!r}')
     # default time
     m3 = Message.from_bytes(b)
     if m3.time != 0 or vars(m3) != dict(mv, time=0):
